@@ -17,7 +17,7 @@ import random as _random
 
 import numpy as np
 
-from .. import core, geo, motlutil, starutil as su
+from .. import core, geo, motlsys, motlutil, starutil as su
 
 INVS = ["C03_ExportPose", "C03_ImportPose", "C03_Identity", "C03_HalfSets", "C03_RoundTrip", "C03_OriginalEntries"]
 U = 8
@@ -800,6 +800,9 @@ def run_float(ctx, cases, name="resid"):
 
 
 def replay(ctx, case):
+    if case.get("kind") == "mixed":
+        motlsys.run_mixed(ctx, "relion", [case])
+        return
     if case["kind"] == "pair":
         r = Runner(ctx)
         r.run_case(case["first"], do_file=False)
@@ -881,3 +884,8 @@ def run(ctx):
         for s in range(0, len(cases), 400):
             run_float(ctx, cases[s:s + 400], name="resid%d" % s)
         ctx.extra["real_valued_lists"] = len(cases)
+    if want("mixed"):
+        # composition (DESIGN 9.4): the conversion as one step of mixed histories on one live list - pose operations,
+        # set operations, EM / STOPGAP / RELION round trips - judged by MotlSysTrace in scope "relion"
+        motlsys.run(ctx, "relion", ctx.pick(120, 2500))
+        ctx.extra["mixed_histories"] = ctx.pick(120, 2500)
